@@ -292,6 +292,104 @@ fn scenario(rec: &mut Rec, run: u64, tag: &str, doms: [&Dom; 2], shm_tag: &str) 
     }
 }
 
+/// cal level (named_concept.rs path_for / extract_name_from_file): two configurations of the file
+/// based static storage and of the shared-memory based dynamic storage that share directory AND
+/// prefix and differ in the suffix only (the situation of every iceoryx2 domain: `.service`,
+/// `.dynamic`, `.data`, `.connection`, ... objects side by side). Reported with the service events.
+fn concept_scenario(rec: &mut Rec, run: u64, work: &str, tag: &str) {
+    use iceoryx2_cal::dynamic_storage::posix_shared_memory::Storage as ShmStorage;
+    use iceoryx2_cal::dynamic_storage::{DynamicStorage, DynamicStorageBuilder};
+    use iceoryx2_cal::named_concept::{NamedConceptBuilder, NamedConceptConfiguration, NamedConceptMgmt};
+    use iceoryx2_cal::static_storage::file::Storage as FileStorage;
+    use iceoryx2_cal::static_storage::{StaticStorage, StaticStorageBuilder};
+    let none: [u64; 0] = [];
+    let nos: [String; 0] = [];
+    let dir = format!("{work}/concepts");
+    // (variant, prefixes, suffixes)
+    let variants = [
+        ("same-prefix-different-suffix", [format!("{tag}cs_"), format!("{tag}cs_")], [".s1", ".t2"]),
+        ("different-prefix-same-suffix", [format!("{tag}cp_"), format!("{tag}dq_")], [".s1", ".s1"]),
+    ];
+    for (kind, variant) in [("file", 0usize), ("shm", 0), ("file", 1), ("shm", 1)] {
+        let (vname, prefixes, suffixes) = &variants[variant];
+        rec.w.emit(&json!({"k":"reset","run":run,"pair":format!("concept-{kind}-{vname}"),
+            "root0b":dir.as_bytes(),"root1b":dir.as_bytes(),"prefix0b":prefixes[0].as_bytes(),"prefix1b":prefixes[1].as_bytes(),
+            "same_root": true, "same_prefix": prefixes[0] == prefixes[1],
+            "prefix0":prefixes[0],"prefix1":prefixes[1],"root0":dir,"root1":dir}));
+        let names: [[&str; 2]; 2] = [["alpha", "both"], ["beta", "both"]];
+        let fcfg: Vec<_> = (0..2).map(|d| <FileStorage as NamedConceptMgmt>::Configuration::default()
+            .prefix(&FileName::new(prefixes[d].as_bytes()).unwrap())
+            .suffix(&FileName::new(suffixes[d].as_bytes()).unwrap())
+            .path_hint(&Path::new(dir.as_bytes()).unwrap())).collect();
+        let scfg: Vec<_> = (0..2).map(|d| <ShmStorage<u64> as NamedConceptMgmt>::Configuration::default()
+            .prefix(&FileName::new(prefixes[d].as_bytes()).unwrap())
+            .suffix(&FileName::new(suffixes[d].as_bytes()).unwrap())
+            .path_hint(&Path::new(dir.as_bytes()).unwrap())).collect();
+        let mut files = vec![];
+        let mut shms = vec![];
+        let observe = |rec: &mut Rec| {
+            for d in 0..2 {
+                let (r, mut l): (String, Vec<String>) = if kind == "file" {
+                    match FileStorage::list_cfg(&fcfg[d]) {
+                        Ok(v) => ("ok".into(), v.iter().map(|n| n.to_string()).collect()),
+                        Err(e) => (format!("{e:?}"), vec![]),
+                    }
+                } else {
+                    match <ShmStorage<u64> as NamedConceptMgmt>::list_cfg(&scfg[d]) {
+                        Ok(v) => ("ok".into(), v.iter().map(|n| n.to_string()).collect()),
+                        Err(e) => (format!("{e:?}"), vec![]),
+                    }
+                };
+                l.sort();
+                rec.op("list_services", d, 0, "", &r, &none, &nos, &l, 0);
+                for n in ["alpha", "beta", "both", "nowhere"] {
+                    let fname = FileName::new(n.as_bytes()).unwrap();
+                    let r = if kind == "file" {
+                        FileStorage::does_exist_cfg(&fname, &fcfg[d]).map_err(|e| format!("{e:?}"))
+                    } else {
+                        <ShmStorage<u64> as NamedConceptMgmt>::does_exist_cfg(&fname, &scfg[d]).map_err(|e| format!("{e:?}"))
+                    };
+                    let r = match r { Ok(true) => "true".to_string(), Ok(false) => "false".to_string(), Err(e) => e };
+                    rec.op("exists", d, 0, n, &r, &none, &nos, &nos, 0);
+                }
+            }
+        };
+        for d in 0..2 {
+            for n in names[d] {
+                let fname = FileName::new(n.as_bytes()).unwrap();
+                let r = if kind == "file" {
+                    match <FileStorage as StaticStorage>::Builder::new(&fname).config(&fcfg[d]).has_ownership(true).create(b"x") {
+                        Ok(s) => { files.push((d, n, s)); "ok".to_string() }
+                        Err(e) => format!("{e:?}"),
+                    }
+                } else {
+                    match <ShmStorage<u64> as DynamicStorage<u64>>::Builder::new(&fname).config(&scfg[d]).has_ownership(true)
+                        .initializer(|v, _| { v.write(7u64); true }).create() {
+                        Ok(s) => { shms.push((d, n, s)); "ok".to_string() }
+                        Err(e) => format!("{e:?}"),
+                    }
+                };
+                rec.op("create_service", d, 0, n, &r, &none, &nos, &nos, 0);
+                observe(rec);
+            }
+        }
+        for d in 0..2 {
+            while let Some(i) = files.iter().position(|x| x.0 == d) {
+                let (_, n, h) = files.remove(i);
+                drop(h);
+                rec.op("drop_service", d, 0, n, "ok", &none, &nos, &nos, 0);
+                observe(rec);
+            }
+            while let Some(i) = shms.iter().position(|x| x.0 == d) {
+                let (_, n, h) = shms.remove(i);
+                drop(h);
+                rec.op("drop_service", d, 0, n, "ok", &none, &nos, &nos, 0);
+                observe(rec);
+            }
+        }
+    }
+}
+
 pub fn main(args: &Args) {
     let work = args.get("work").expect("--work");
     let tag = args.get_or("tag", "t");
@@ -328,6 +426,10 @@ pub fn main(args: &Args) {
         let d1 = Dom { root: root1.to_string(), prefix: p1.clone(), cfg: make_config(root1, p1) };
         run += 1;
         scenario(&mut rec, run, name, [&d0, &d1], &tag);
+    }
+    if only.is_none() || only.as_deref() == Some("concepts") {
+        run += 1;
+        concept_scenario(&mut rec, run, &work, &tag);
     }
     let per = rec.per.clone();
     w.flush();
